@@ -864,6 +864,19 @@ func (x *Exec) lookup(fr *Frame, st *State, in *ssa.Lookup) {
 		fr.env[in] = scalar(in.Type(), x.define(st, in.Name(), Apply("str.at", SBV(8), xv.L[0], i)))
 		return
 	}
+	if mt, isMap := xv.T.Underlying().(*types.Map); isMap && len(x.c.leaves(mt.Key())) != 1 {
+		// a read of a map whose key type has several scalar components (a struct key): the maps of the
+		// memory model are keyed by one scalar, so the value read is left unconstrained (sound for reads;
+		// writes to such maps stay outside the subset)
+		x.c.note("reads of maps with composite keys (%s) return unconstrained values", typeName(mt.Key()))
+		val := x.freshValue(st, "compkey_"+in.Name(), mt.Elem())
+		if in.CommaOk {
+			fr.env[in] = Value{T: in.Type(), Tup: []Value{val, scalar(types.Typ[types.Bool], x.c.Fresh("compkey_ok", SBool))}}
+		} else {
+			fr.env[in] = val
+		}
+		return
+	}
 	mf := x.mapFam(xv.T)
 	k := x.val(fr, in.Index).L[0]
 	m := xv.L[0]
